@@ -1,5 +1,6 @@
 import GraphrsModel.Obs
 import GraphrsModel.Proto
+import GraphrsModel.Spec.Inv
 import GraphrsModel.ObsSP
 import GraphrsModel.ObsCen
 import GraphrsModel.ObsComp
@@ -20,7 +21,18 @@ def handleStore : P String := do
   P.done
   let (s, rs) := Store.run sp ops
   let (a, ars) := Abs.run sp ops
-  let m := [("res", pResults rs)] ++ s.api.fields u ++ s.derivedFields u w ++ s.snapFields
+  -- the coupling invariant the theorems are about, evaluated on the reached state and on every derived graph
+  let wfOf (st : Store) : String :=
+    if st.wf then "1" else
+      "violated:" ++ (if st.nodesOk then "" else "nodesOk ") ++ (if st.edgesOk then "" else "edgesOk ") ++
+        (if st.adjOk then "" else "adjOk ") ++ (if st.vecOk then "" else "vecOk")
+  let derivedWf : String :=
+    let ds : List (Outcome Store) := ((subsets u).map fun l => s.getSubgraph l) ++ [s.reverse, s.setAllEdgeWeights w, s.toSingleEdges]
+    match ds.findSome? (fun d => match d with | .ok st => if st.wf then none else some (wfOf st) | _ => none) with
+    | some v => "derived-" ++ v
+    | none => "1"
+  let m := [("res", pResults rs)] ++ s.api.fields u ++ s.derivedFields u w ++ s.snapFields ++
+           [("agree.wf", wfOf s), ("agree.wfderived", derivedWf)]
   let sfields := [("res", pResults ars)] ++ (Abs.api sp a).fields u ++ Abs.derivedFields sp a u w
   pure (pFields "m." m ++ "|" ++ pFields "s." sfields)
 
